@@ -31,4 +31,13 @@ CHECKS = {
         text='embed agrees with an independent two-stage reference (outer binds, surplus forwarded to inner) in both directions on 220 outers x 1 305 inners x 4 use_* combinations (exhaustive in thorough, 192 shapes each), with the stated exemption counted separately; raise => shared name or infeasible; n-ary = nested on 1.5M sampled triples; bare outer returns inner unchanged; 32k Hypothesis cases with <=5 named parameters.',
         design_ref='DESIGN.md 2/C02', technique='bounded-exhaustive enumeration + Hypothesis vs reference-semantics oracle built on the CPython-binding model',
         note='Trusted: vlib/cpbind.py; the reference semantics in checks/c02.py (ref_pairs) written from the property statement.'),
+    'C15': dict(
+        text='merge/embed/mask/forwards return a well-formed UpgradedSignature or raise ValueError (IncompatibleSignatures on role-consistent merge/embed inputs) on all 1.7M ordered pairs, 1.15M embed cases, 3.9M mask calls with duplicate/positional-only/foreign names and all 16 flag sets, 800k forwards calls, 600k triples, a quarter of them repeated with downgraded inputs (same parameters + DeprecationWarning); retrieval falls back to the plain signature on 230k generated wrappers whose forwarding cannot be honoured.',
+        design_ref='DESIGN.md 2/C15', technique='bounded-exhaustive enumeration + Hypothesis with an outcome-type / well-formedness oracle and an upgraded-vs-downgraded differential',
+        note='Well-formedness = re-validation of plain copies through the inspect.Signature constructor, UpgradedParameter instances, +depths present.'),
+    'C16': dict(
+        category='fault_enumeration',
+        text='Part B enumerates crash points: for 40 scenario instances every crossing index (about 1 000 per retrieval) and for all 320 instances the first two occurrences of every distinct crossing signature x 6 exception types x 4 retrieval actions; after each run every object of the scenario has exactly its former attributes and the as_forged guard is empty. Part A snapshots inputs deeply around 1.2M algebra calls and checks results share no provenance container with inputs.',
+        design_ref='DESIGN.md 2/C16', technique='exhaustive fault injection at sigtools->outside call boundaries (sys.setprofile) with before/after snapshot oracle; snapshot + aliasing invariant over generated algebra calls',
+        note='Fault model: exception on entry of a Python-level call from a sigtools frame into a non-sigtools frame. C-level calls are not injection points. Snapshot depth 5 through __wrapped__/__signature__/func/__func__/__self__.'),
 }
